@@ -221,6 +221,7 @@ func (c *FnCtx) verify() {
 	if len(fc.Held) > 0 {
 		st.oldHeap = copyHeap(st.heap)
 	}
+	c.checkClosedType(st)
 	// cover: precondition satisfiable
 	cov := &Oblig{Name: c.key + "#cover:entry", Kind: "cover", Goal: "false", PC: append([]string(nil), st.pc...), Fn: c, Pos: c.pos(fn.Pos())}
 	c.covers = append(c.covers, cov)
